@@ -199,8 +199,9 @@ class Params:
         return self.P[name]
 
 
-def verdict(make):
-    """Common oracle: `make()` builds a fresh graph (same structure every time)."""
+def verdict(make, rewire=None):
+    """Common oracle: `make()` builds a fresh graph (same structure every time); `rewire` = (i, j): after the first sort
+    main-graph node i additionally uses node j's output."""
     problems = []
     g = make()
     graphs = list(_all_graphs(g))
@@ -249,11 +250,39 @@ def verdict(make):
                 problems.append(f"Function.sort disagrees with Graph.sort: {after3} vs {after}")
             g4 = make()
             g4.opset_imports[""] = 18
-            m = ir.Model(g4, ir_version=10)
+            # the same structure once more as the body of a model-local function: the pass must sort every graph-like
+            f5 = ir.Function("d", "f", graph=make(), attributes=[])
+            f6 = ir.Function("d", "h", graph=make(), attributes=[])
+            m = ir.Model(g4, ir_version=10, functions=[f5, f6])
             res = topological_sort.TopologicalSortPass()(m)
             after4 = {gr.name: [n.name for n in gr] for gr in _all_graphs(res.model.graph)}
             if after4 != after:
                 problems.append(f"TopologicalSortPass disagrees with Graph.sort: {after4} vs {after}")
+            for fn in res.model.functions.values():
+                after5 = {gr.name: [n.name for n in gr] for gr in _all_graphs(fn.graph)}
+                if after5 != after:
+                    problems.append(f"TopologicalSortPass left function {fn.name} in another order than Function.sort gives: {after5} vs {after}")
+            # history independence: after a successful sort, change a dependency WITHOUT touching any node list, sort again
+            main_nodes = list(g)
+            if len(main_nodes) >= 2 and rewire is not None:
+                i, j = rewire
+                ni, nj = main_nodes[i % len(main_nodes)], main_nodes[j % len(main_nodes)]
+                if ni is not nj:
+                    ni.resize_inputs(len(ni.inputs) + 1)
+                    ni.replace_input_with(len(ni.inputs) - 1, nj.outputs[0])
+                    cyc2 = has_cycle(g)
+                    before2 = {gr.name: [n.name for n in gr] for gr in graphs}
+                    try:
+                        g.sort()
+                        r2 = None
+                    except ValueError:
+                        r2 = "ValueError"
+                    now = {gr.name: [n.name for n in gr] for gr in graphs}
+                    if cyc2:
+                        if r2 != "ValueError" or now != before2:
+                            problems.append(f"after a sort, a rewiring that creates a cycle: raised={r2}, order {before2} -> {now}")
+                    elif r2 is not None or not all(order_valid(gr) for gr in graphs):
+                        problems.append(f"after a sort, {ni.name} was rewired to use {nj.name}; sorting again left {now} (raised={r2}), which is not a topological order")
     return (not problems), dict(before=before, after=after, cycle=cyc, raised=raised, problems=problems[:4])
 
 
@@ -267,6 +296,9 @@ def make_case(tier, key):
             pairs = [(i, j) for i in range(N) for j in range(N) if j <= i]
         ranges = {f"e{i}{j}": (0, 1) for i, j in pairs}
         ranges["perm"] = (0, len(list(itertools.permutations(range(N)))) - 1)
+        if N <= 3:
+            ranges["rw_i"] = (0, N - 1)
+            ranges["rw_j"] = (0, N - 1)
 
         def body(P):
             bits = {(i, j): bool(P[f"e{i}{j}"] != 0) for i, j in pairs}
@@ -274,7 +306,8 @@ def make_case(tier, key):
                 for j in range(N):
                     bits.setdefault((i, j), False)
             pi = operator.index(P["perm"])
-            return verdict(lambda: build_flat(N, bits, pi, extra)[0])
+            rw = (operator.index(P["rw_i"]), operator.index(P["rw_j"])) if "rw_i" in P else None
+            return verdict(lambda: build_flat(N, bits, pi, extra)[0], rewire=rw)
 
         name = f"flat[N={N}, edges {mode}, {'repeated/None/second-output inputs' if extra_i else 'plain inputs'}]"
     else:
@@ -283,17 +316,19 @@ def make_case(tier, key):
         names += ["s1_uses_s0", "s1_cap_b", "s0_uses_s1"] if depth == 2 else ["t0_cap_a", "t0_cap_s0"]
         ranges = {n: (0, 1) for n in names}
         ranges["perm"] = (0, 5)
+        ranges["rw"] = (0, 2)
 
         def body(P):
             # concretise every selector once so that every rebuild of the graph is identical
             Q = {k: operator.index(P[k]) for k in ranges}
-            return verdict(lambda: build_nested(depth, Params(Q)))
+            rw = [None, (0, 2), (1, 0)][Q["rw"]]
+            return verdict(lambda: build_nested(depth, Params(Q)), rewire=rw)
 
         name = f"nested[depth {depth}]"
 
     def sig(args, obs):
         first = obs["problems"][0]
-        for tag in ("cycle", "not topologically ordered", "already ordered", "second sort", "identical graph", "Function.sort", "TopologicalSortPass", "lost or gained", "raised"):
+        for tag in ("after a sort", "left function", "cycle", "not topologically ordered", "already ordered", "second sort", "identical graph", "Function.sort", "TopologicalSortPass", "lost or gained", "raised"):
             if tag in first:
                 return "C12:" + tag.replace(" ", "-")
         return "C12:other"
